@@ -591,6 +591,7 @@ fn check_any(case: &HistCase, input: &[u8], mon: &mut Mon) {
         let st = lex.get(f.at).copied().unwrap_or(text::Lex::End);
         mon.tuple(format!("hist-fault|{}|{}", st.name(), f.hard.map(|k| k.name()).unwrap_or("Eof")));
         mon.count_dyn(format!("hist_fault_at.{}", st.name()));
+        mon.count_dyn(format!("read_fault_fired.{}", f.hard.map(|k| k.name()).unwrap_or("EarlyEof")));
     }
     if run.abnormal {
         return;
@@ -660,8 +661,36 @@ fn check_any(case: &HistCase, input: &[u8], mon: &mut Mon) {
         seqs.push((mode.name(), r.steps.into_iter().map(|s| s.res).collect()));
     }
     mon.count("c12.mode_agreement_runs");
+    // The four pure modes are compared over their whole item sequences, errors and
+    // what follows them included ("the four ways of iterating agree"); a history
+    // that mixes modes is compared up to and including the first error.
     let upto = |s: &[&PRes]| -> usize { s.iter().position(|r| !matches!(r, Ok(Some(_)))).map(|p| p + 1).unwrap_or(s.len()) };
     let base: Vec<&PRes> = seqs[0].1.iter().collect();
+    if !sticky {
+        for (name, s) in seqs.iter().skip(1) {
+            let same = s.len() == base.len() && s.iter().zip(base.iter()).all(|(a, b)| equiv(a, b));
+            if !same {
+                let i = (0..s.len().min(base.len())).find(|i| !equiv(&s[*i], base[*i])).unwrap_or(s.len().min(base.len()));
+                let first_err = base.iter().position(|r| r.is_err());
+                if first_err.map(|p| i > p).unwrap_or(false) {
+                    mon.violate(
+                        "C12",
+                        "O12.5",
+                        format!("iteration modes disagree after an error ({} vs next_value)", name),
+                        format!(
+                            "{}: item {} (first error at item {}): next_value loop gives {}, {} gives {}",
+                            ctx_of(case, input),
+                            i,
+                            first_err.unwrap_or(0),
+                            base.get(i).map(|r| show_res(r)).unwrap_or_else(|| "<none>".into()),
+                            name,
+                            s.get(i).map(show_res).unwrap_or_else(|| "<none>".into())
+                        ),
+                    );
+                }
+            }
+        }
+    }
     let nb = upto(&base);
     let mut compare = |name: &str, other: &[&PRes], mon: &mut Mon| {
         let no = upto(other);
@@ -1222,7 +1251,16 @@ pub fn c12_run(seed: u64, i: u64, _tier: Tier, mon: &mut Mon, found: &mut Vec<Fo
         _ => {
             // W-any: termination, progress, mode agreement on arbitrary text
             let mut opts_ix = opts::draw_parse(&mut rng);
-            let (input, _) = engine::draw_text(&mut rng, &mut opts_ix, 2048);
+            let (mut input, _) = engine::draw_text(&mut rng, &mut opts_ix, 2048);
+            if rng.chance(1, 14) {
+                // a long stream of small datums and of errors raised inside every
+                // nesting construct: iteration modes must agree all the way through
+                let (blobs, big) = draw_storm(&mut rng);
+                if !big {
+                    input = storm_text(&blobs, 3).0;
+                    mon.count("c12.storm_text_runs");
+                }
+            }
             let valid = std::str::from_utf8(&input).is_ok();
             let faults = if rng.chance(1, 5) { 1 } else { 0 };
             let source = draw_source(&mut rng, input.len(), valid, faults);
